@@ -397,6 +397,20 @@ func c02RunShape(w *fw.W, idx int) {
 				}
 			}
 		}
+		// the same loop three more times in ONE runtime whose tail-iteration bound
+		// fits one run but not the sum of the runs: each run is a loop of its own, so
+		// elimination on must keep giving the answer elimination off gives
+		if n >= 10 && n <= 100 && s.call != "head-call" {
+			rr := rt.New(rt.Opts{MaxTail: 2*n*s.cycle + 20})
+			for rep := 1; rep <= 3; rep++ {
+				tr := rr.Run("c02", src)
+				w.Eval(1)
+				if tr.IsErr || tr.Value != want {
+					w.Violation("tail-loop-repeated-in-one-runtime:"+c02ShapeKey(s), fmt.Sprintf("run #%d of tail loop %s (n=%d) in one runtime gave %s %s, want %s", rep, s.name(), n, tr.Outcome(), tr.Msg, want), src)
+					return
+				}
+			}
+		}
 		heightAt[n] = on.mon.maxHeight
 		if h10, ok := heightAt[10]; ok && n > 10 && on.mon.maxHeight != h10 {
 			w.Violation("tail-loop-stack-grows:"+c02ShapeKey(s),
